@@ -100,28 +100,45 @@ def gen_case(rng):
     return bs, replicas, origs
 
 
-def run_dup(bs, replicas, d):
-    """real `pff dup`; returns (exit or exception text, report rows [(path, used indices)], output tree)"""
+def run_dup(bs, replicas, d, nested=None, spell=None):
+    """real `pff dup`; returns (exit or exception text, report rows [(path, used indices)], output tree).
+    nested = (j, name): replica j lives in the sub-folder `name` of replica 0 (the caller has put those files into replica 0's tree).
+    spell = list of spellings: `synchronize_files` is called directly with the replica roots written in those (non-normalised) ways."""
     m = rr()
     shutil.rmtree(d, ignore_errors=True)
     os.makedirs(d)
     dirs = []
     for i, rep in enumerate(replicas):
         root = os.path.join(d, REPLICA_NAMES[i])
-        os.makedirs(root)
+        if nested and i == nested[0]:
+            root = os.path.join(d, REPLICA_NAMES[0], nested[1])
+        os.makedirs(root, exist_ok=True)
         for p, c in rep.items():
             fp = os.path.join(root, *p.split("/"))
             os.makedirs(os.path.dirname(fp), exist_ok=True)
             open(fp, "wb").write(c)
         dirs.append(root)
     out = os.path.join(d, "out")
+    if spell:
+        # the same folders under other spellings, relative to the current directory `d`
+        sp = []
+        for i, root in enumerate(dirs):
+            rel = os.path.relpath(root, d)
+            sp.append({"plain": root, "dot": "./" + rel, "slashes": rel + "//", "updown": "zz/../" + rel, "rel": rel,
+                       "trail": root + "/"}[spell[i % len(spell)]])
+        os.makedirs(os.path.join(d, "zz"), exist_ok=True)
+        dirs = sp
     old = m.majority_vote_byte_scan.__defaults__
     m.majority_vote_byte_scan.__defaults__ = (bs,) + tuple(old[1:])       # only the chunk size is overridden
     cwd = os.getcwd()
     os.chdir(d)
     try:
         with common.captured():
-            rc = m.main(["-i"] + dirs + ["-o", out, "-r", "rep.csv", "--silent", "-f"])
+            if spell:
+                import io
+                rc = m.synchronize_files(dirs, out, report_file="rep.csv", ptee=io.StringIO())
+            else:
+                rc = m.main(["-i"] + dirs + ["-o", out, "-r", "rep.csv", "--silent", "-f"])
         rc = str(int(rc))
     except BaseException as e:
         rc = "exception:%s" % type(e).__name__
@@ -178,7 +195,9 @@ def oracle(replicas, origs, rc, rows, outtree):
     if not errs and origs is not None:
         for p in union:
             copies = [rep[p] for rep in replicas if p in rep]
-            orig = origs[p]
+            orig = origs.get(p)
+            if orig is None:
+                continue        # (a path that exists only through the nesting of one replica folder in another: no original to compare with)
             if len(copies) >= 3 and max(len(c) for c in copies) == len(orig):
                 ok = all(2 * sum(1 for c in copies if j < len(c) and c[j] == orig[j]) > sum(1 for c in copies if j < len(c))
                          for j in range(len(orig)))
@@ -223,10 +242,27 @@ def run(oc, tier, seed, model_available, escalate):
     for idx, (bs, reps, origs, kind) in enumerate(cases):
         if not any(reps):
             continue
-        rc, rows, outtree = run_dup(bs, reps, d)
+        nested = spell = None
+        if kind == "random" and idx % 7 == 3 and len(reps) >= 3:
+            # directed: one replica folder lies INSIDE another replica folder (a backup kept within the tree it backs up): replica 0 then also
+            # holds that replica's files, under the sub-folder's name
+            j = rng.randrange(1, len(reps))
+            nm = rng.choice(["bk", "copy of it", "z_backup"])
+            if not any(p == nm or p.startswith(nm + "/") for p in reps[0]):
+                reps = [dict(r) for r in reps]
+                for p, c in reps[j].items():
+                    reps[0][nm + "/" + p] = c
+                nested = (j, nm)
+                kind = "nested-roots"
+        elif kind == "random" and idx % 7 == 5:
+            # directed: the routine called directly with replica folders written in non-normalised ways (the command line normalises them)
+            spell = [rng.choice(["dot", "slashes", "updown", "rel", "trail", "plain"]) for _ in reps]
+            kind = "root-spellings"
+        rc, rows, outtree = run_dup(bs, reps, d, nested=nested, spell=spell)
         oc.oracle_cases += 1
         for e in oracle(reps, origs, rc, rows, outtree):
-            oc.violations.append({"input": {"bs": bs, "replicas": [{p: c.hex() for p, c in r.items()} for r in reps]},
+            oc.violations.append({"input": {"bs": bs, "replicas": [{p: c.hex() for p, c in r.items()} for r in reps],
+                                            "nested_replica": nested, "root_spellings": spell},
                                   "impl": {"exit": rc, "rows": rows[:12]}, "what": e})
         lines.append(request(bs, reps))
         impl.append(reply(rc, rows, outtree))
